@@ -20,6 +20,10 @@ import Driver.Suites.Tar
 import Driver.Suites.Remove
 import Driver.Suites.Registry
 import Driver.Suites.ResumeCodec
+import Driver.Suites.Rm
+import Driver.Suites.Wscap
+import Driver.Suites.Bucket
+import Driver.Suites.Sem
 /-! Table of suites known to the driver.  One line per suite (merge=union friendly). -/
 namespace Driver
 def registry : List Suite := [
@@ -51,5 +55,9 @@ def registry : List Suite := [
   Suites.Registry.suite,
   Suites.Registry.suiteConcurrent,
   Suites.ResumeCodec.suite,
+  Suites.Rm.suite,
+  Suites.Wscap.suite,
+  Suites.Bucket.suite,
+  Suites.Sem.suite,
 ]
 end Driver
